@@ -87,6 +87,8 @@ def h_kepler(ctx):
         ctx.vc("E - e sin E == M (mod 360) to 5e-8 degree", abs(res) < 5e-8)
         return
     pi = pi_()
+    if ("after_loop" not in ctx.it.info or "M_rad" not in ctx.it.info) and ctx.uf_terms("tan"):
+        raise KeyError("after_loop: the cuts of kepler_equation did not fire although tan(E/2) was formed (anchor lost)")
     if "after_loop" not in ctx.it.info or "M_rad" not in ctx.it.info:
         # a path that returns without the bisection: its result must satisfy the property itself, exactly
         Er = E * pi / 180
